@@ -196,7 +196,9 @@ func (c *vbConn) clientWrote(mc *memConn, p []byte) error {
 			c.kill()
 			return nil // the write itself succeeded; the answer is lost with the link
 		}
-		if f := b.fault(func(f *e4Fault) bool { return f.Conn == c.id && f.Kind == "goSilent" && f.Pkt == j }); f != nil {
+		if f := b.fault(func(f *e4Fault) bool {
+			return f.Conn == c.id && ((f.Kind == "goSilent" && f.Pkt == j) || (f.Kind == "goSilentType" && f.Type == pk.Type && f.Nth == nth))
+		}); f != nil {
 			c.silent = true
 			b.log.add(c.id, "SILENT", nil, "")
 			if b.onSilent != nil {
